@@ -1,5 +1,4 @@
 package main
 
-func cmdQuorum(args []string)     { panic("not built yet") }
 func cmdConfChange(args []string) { panic("not built yet") }
 func cmdLogStore(args []string)   { panic("not built yet") }
